@@ -516,10 +516,15 @@ class Impl:
     def _user_headers(self, hs):
         # the user supplies plain tuples (ASCII text given as str or as bytes alternately) or NeverIndexedHeaderTuple
         out = []
+        plain = [(bytes(n), bytes(v)) for n, v, ni in hs if not ni]
+        ascii_ok = all(all(c < 128 and c not in (0x1c, 0x1d, 0x1e, 0x1f) for c in n + v) for n, v in plain)
+        as_text = ascii_ok and sum(len(n) + len(v) for n, v in plain) % 2 == 1     # one type per header list (str or bytes), see F-C14-2
         for i, (n, v, ni) in enumerate(hs):
             if ni:
                 out.append(NeverIndexedHeaderTuple(bytes(n), bytes(v)))
-            elif i % 3 == 2 and all(c < 128 for c in n) and all(c < 128 for c in v) and not any(c in (0x1c, 0x1d, 0x1e, 0x1f) for c in bytes(n) + bytes(v)):
+            elif as_text:
+                # (str or bytes is chosen per field NAME, so that two fields of one name never differ in type: h2 compares str and bytes
+                #  names as different, finding F-C14-2, which the byte-string model cannot express)
                 out.append((bytes(n).decode('ascii'), bytes(v).decode('ascii')))
             else:
                 out.append((bytes(n), bytes(v)))
